@@ -357,8 +357,8 @@ def tyName : Default → Str
 def optionalPrefix : Str := "Optional[".toList
 
 /-- `_set_name_and_type((name, param), infer_type=False, word_wrap=True)` for plain parameter names -/
-def setNameAndType (name : Str) (p : Param) : Out Param := do
-  if endsWith name "kwargs".toList || startsWith name ['*'] then .outside "star / kwargs parameter"
+def setNameAndType (name : Str) (p : Param) : Out Param :=
+  if endsWith name "kwargs".toList || startsWith name ['*'] then .outside "star / kwargs parameter" else do
   let wasNone := isNoneVal p.default
   -- merge_present_params(target=param, other={doc, default} from extract_default(doc))
   let p ← match p.doc with
@@ -409,47 +409,85 @@ def groupLines : List Str → Option (List Str) → List Str → List (List Str)
       | Option.none => groupLines ls Option.none (l :: header) chunks
       | some c => groupLines ls (some (l :: c)) header chunks
 
-def upsert (ps : List (Str × Param)) (name : Str) (f : Param → Out Param) : Out (List (Str × Param)) :=
-  if ps.any (·.1 == name) then
-    ps.mapM (fun kv => if kv.1 == name then (do let v ← f kv.2; return (kv.1, v)) else pure kv)
-  else do
-    let v ← f {}
-    return ps ++ [(name, v)]
+/-- `params[name] = f(params.get(name, {}))`, keeping the position of an existing key -/
+def upsert : List (Str × Param) → Str → (Param → Out Param) → Out (List (Str × Param))
+  | [], name, f => match f {} with
+    | .ok v => .ok [(name, v)]
+    | .outside w => .outside w
+  | (k, p) :: rest, name, f =>
+    if k == name then
+      match f p with
+      | .ok v => .ok ((k, v) :: rest)
+      | .outside w => .outside w
+    else match upsert rest name f with
+      | .ok r => .ok ((k, p) :: r)
+      | .outside w => .outside w
 
-/-- `cdd.docstring.parse.docstring(text, emit_default_doc=edd)` on ReST text whose tokens stand at line starts -/
-def parseRest (text : Str) (edd : Bool) : Out IR := do
-  let lines := split1 text '\n'
-  if lines.any (fun l => allRestTokens.any (fun t => contains (l.drop 1) t)) then .outside "token inside a line"
-  let (header, chunks) := groupLines lines Option.none [] []
-  let mut ir : IR := { doc := strip (join ['\n'] header) }
-  for ch in chunks do
-    let line := join ['\n'] ch
-    if startsWith line ":return".toList || startsWith line ":rtype".toList then
-      let nxt := (findAt line [':'] 1).getD line.length
-      let val := strip (line.drop (nxt + 1))
-      let cur : Param := ir.returns.getD {}
-      let isT := startsWith line ":rtype".toList
-      let cur := if isT then { cur with typ := some (stripBackticks3 val) } else { cur with doc := some val }
-      -- the real parser interpolates on the entry built from this chunk alone, then updates the return entry
-      let one : Param := if isT then { typ := some (stripBackticks3 val) } else { doc := some val }
-      let one ← interpolateDefaults one edd
+/-- apply `f` to every value, keeping keys and order -/
+def mapVals (f : Param → Out Param) : List (Str × Param) → Out (List (Str × Param))
+  | [] => .ok []
+  | (k, p) :: rest =>
+    match f p with
+    | .outside w => .outside w
+    | .ok v => match mapVals f rest with
+      | .ok r => .ok ((k, v) :: r)
+      | .outside w => .outside w
+
+/-- one chunk (a token line with its continuation lines) -/
+def stepChunk (ir : IR) (ch : List Str) (edd : Bool) : Out IR :=
+  let line := join ['\n'] ch
+  if startsWith line ":return".toList || startsWith line ":rtype".toList then
+    let nxt := (findAt line [':'] 1).getD line.length
+    let val := strip (line.drop (nxt + 1))
+    let cur : Param := ir.returns.getD {}
+    let isT := startsWith line ":rtype".toList
+    -- the real parser interpolates on the entry built from this chunk alone, then updates the return entry
+    let one : Param := if isT then { typ := some (stripBackticks3 val) } else { doc := some val }
+    match interpolateDefaults one edd with
+    | .outside w => .outside w
+    | .ok one =>
       let cur := { cur with typ := if isT then one.typ else cur.typ, doc := if isT then cur.doc else one.doc,
                             default := match one.default with | some d => some d | Option.none => cur.default }
-      ir := { ir with returns := some cur }
-    else
-      let fs := (find line [' ']).getD line.length
-      let nc := (findAt line [':'] fs).getD line.length
-      let name := (line.take nc).drop (fs + 1)
-      let val := strip (line.drop (nc + 1))
-      let isT := startsWith line ":type".toList
-      let ps ← upsert ir.params name (fun p => do
+      .ok { ir with returns := some cur }
+  else
+    let fs := (find line [' ']).getD line.length
+    let nc := (findAt line [':'] fs).getD line.length
+    let name := (line.take nc).drop (fs + 1)
+    let val := strip (line.drop (nc + 1))
+    let isT := startsWith line ":type".toList
+    match upsert ir.params name (fun p =>
         let p := if isT then { p with typ := some (stripBackticks3 val) } else { p with doc := some val }
-        let p ← interpolateDefaults p edd
-        setNameAndType name p)
-      ir := { ir with params := ps }
-  -- final pass of `parse_docstring` for ReST: interpolate_defaults over params and returns
-  let ps ← ir.params.mapM (fun kv => do let v ← interpolateDefaults kv.2 edd; return (kv.1, v))
-  let rt ← match ir.returns with | some r => (do let v ← interpolateDefaults r edd; return some v) | Option.none => pure Option.none
-  return { ir with params := ps, returns := rt }
+        match interpolateDefaults p edd with
+        | .outside w => .outside w
+        | .ok p => setNameAndType name p) with
+    | .outside w => .outside w
+    | .ok ps => .ok { ir with params := ps }
+
+def foldChunks (edd : Bool) : IR → List (List Str) → Out IR
+  | ir, [] => .ok ir
+  | ir, ch :: rest => match stepChunk ir ch edd with
+    | .outside w => .outside w
+    | .ok ir' => foldChunks edd ir' rest
+
+/-- `cdd.docstring.parse.docstring(text, emit_default_doc=edd)` on ReST text whose tokens stand at line starts -/
+def parseRest (text : Str) (edd : Bool) : Out IR :=
+  let lines := split1 text '\n'
+  if lines.any (fun l => allRestTokens.any (fun t => contains (l.drop 1) t)) then .outside "token inside a line"
+  else if lines.any (fun l => [":raises".toList, ":cvar".toList, ":ivar".toList, ":var".toList].any (fun t => startsWith l t))
+    then .outside "raises / cvar / ivar / var field"
+  else
+    let (header, chunks) := groupLines lines Option.none [] []
+    match foldChunks edd { doc := strip (join ['\n'] header) } chunks with
+    | .outside w => .outside w
+    | .ok ir =>
+      -- final pass of `parse_docstring` for ReST: interpolate_defaults over params and returns
+      match mapVals (fun p => interpolateDefaults p edd) ir.params with
+      | .outside w => .outside w
+      | .ok ps =>
+        match ir.returns with
+        | Option.none => .ok { ir with params := ps }
+        | some r => match interpolateDefaults r edd with
+          | .outside w => .outside w
+          | .ok v => .ok { ir with params := ps, returns := some v }
 
 end Doc
